@@ -2563,6 +2563,10 @@ func (ex *Exec) call(s *astate, fr *aframe, x *ssa.Call) (bool, error) {
 			return false, nil
 		}
 	}
+	if r, ok := ex.bufferIntrinsic(s, fr, name, args, x); ok {
+		fr.env[x] = r
+		return false, nil
+	}
 	if r, ok := ex.intrinsic(s, name, args, x); ok {
 		fr.env[x] = r
 		return false, nil
@@ -2819,6 +2823,40 @@ func (ex *Exec) intrinsic(s *astate, name string, args []AVal, x *ssa.Call) (AVa
 		return AVal{}, false
 	}
 	u8 := types.Typ[types.Uint8]
+	if strings.HasPrefix(m, "AppendUint") && len(args) == 3 && args[2].K == AInt && len(args[2].Bits) == 8*n {
+		// AppendUintN(b, v) = append(b, the n octets of v)
+		pa, sa, ok := s.mem.describe(args[1], u8)
+		if !ok {
+			return AVal{}, false
+		}
+		var oct []AVal
+		for i := 0; i < n; i++ {
+			pos := i
+			if big {
+				pos = n - 1 - i
+			}
+			oct = append(oct, AVal{K: AInt, Bits: append(BitVec(nil), args[2].Bits[8*pos:8*pos+8]...)})
+		}
+		s.serial++
+		nm := fmt.Sprintf("local:appenduint#%d", s.serial)
+		s.mem.fresh[nm] = true
+		prefix := pa
+		var segs []ASeg
+		if len(sa) == 0 {
+			prefix = append(append([]AVal(nil), pa...), oct...)
+		} else {
+			segs = append(append(segs, sa...), ASeg{Cells: oct})
+		}
+		for i, v := range prefix {
+			s.mem.Store(fmt.Sprintf("%s[%d]", nm, i), v, u8)
+		}
+		if len(segs) == 0 {
+			return AVal{K: ASlice, Path: nm, Lo: 0, Len: len(prefix), NonNil: true}, true
+		}
+		s.mem.from[nm] = len(prefix)
+		s.mem.Seqs[nm] = segs
+		return AVal{K: ASlice, Path: nm, Lo: 0, Len: -1, NonNil: true}, true
+	}
 	if strings.HasPrefix(m, "Uint") && len(args) == 2 && args[1].K == ASlice && args[1].Lo >= 0 {
 		b := args[1]
 		out := make(BitVec, 8*n)
